@@ -47,16 +47,23 @@ def specEval (T : Tr) (name : String) (agg : Vec → XR) (os fs : List Rat) : Op
   | "rmsf" => some (Spec.Det.rmsf T agg os fs)
   | _ => none
 
+def detOne (name agg obs fcst : String) : Option String := do
+  let aggf ← aggByName floatTr agg
+  let (obs, fcst) := (← parseVec? obs, ← parseVec? fcst)
+  if name == "corr" then
+    some (toString (computeFromObsFcst (corr floatTr) obs fcst))
+  else if name == "kge" then
+    some (toString (computeFromObsFcst (kge floatTr) obs fcst))
+  else some (showOpt (detScore floatTr name aggf obs fcst))
+
 def handle (args : List String) : Option String :=
   match args with
-  | ["det", name, agg, obs, fcst] => do
-      let aggf ← aggByName floatTr agg
-      let (obs, fcst) := (← parseVec? obs, ← parseVec? fcst)
-      if name == "corr" then
-        some (toString (computeFromObsFcst (corr floatTr) obs fcst))
-      else if name == "kge" then
-        some (toString (computeFromObsFcst (kge floatTr) obs fcst))
-      else some (showOpt (detScore floatTr name aggf obs fcst))
+  | ["det", name, agg, obs, fcst] => detOne name agg obs fcst
+  -- several metrics evaluated one after the other on the same data: a score is a function of the data alone,
+  -- so the model answers each as if it were the only one
+  | ["seq", obs, fcst, ms] => do
+      let outs ← (ms.splitOn ",").mapM fun m => detOne m "mean" obs fcst
+      some (" ".intercalate outs)
   | ["specdet", name, agg, os, fs] => do
       let aggf ← aggByName floatTr agg
       let (os, fs) := (← ratsOf? (← parseVec? os), ← ratsOf? (← parseVec? fs))
